@@ -94,6 +94,62 @@ def c05_three_classes(a: int, b: int, c: int, fshape: int) -> bool:
     return ok
 
 
+# ---------------------------------------------------------------- overload groups (incl. MATLAB-indistinguishable overloads)
+SIGS = [
+    [("int", "a", None)],
+    [("size_t", "a", None)],                                   # same MATLAB guard as the first
+    [("int", "a", None), ("int", "b", "0")],                   # its short form has the guard of the first again
+    [("double", "x", None), ("double", "y", None)],
+    [("ns::Other", "o", None)],
+    [],
+    [("char", "c", None), ("bool", "flag", "true")],
+]
+NSIG = len(SIGS)
+OROLES = ["function", "method", "static", "constructor"]
+
+
+def check_overloads(role, i, j, k, nsdepth):
+    nss = ("top", "mid")[:nsdepth]
+    sigs = [SIGS[i], SIGS[j], SIGS[k]]
+    d = ms.decode_class(6, 0, None)                          # a class with one constructor and nothing else
+    funcs = []
+    if role == "function":
+        funcs = [("double", "fn", a) for a in sigs]
+    elif role == "method":
+        d["methods"] = [("double", "run", a, True) for a in sigs]
+    elif role == "static":
+        d["statics"] = [("double", "Make", a) for a in sigs]
+    else:
+        d["ctors"] = list(sigs)
+    d["serialize"] = False
+    # a second entity after the group: ids that follow a dropped or doubled overload shift
+    tail = [("int", "after", [("double", "z", None)])]
+    inner = ms.render_class(d, False) + " " + ms.render_functions(funcs + tail)
+    text = ms.PRELUDE + "".join("namespace %s { " % x for x in nss) + inner + " }" * len(nss)
+    files, cpp = ms.run_toolbox(text)
+    problems = ms.check_dispatch(files, cpp, [d], nss, funcs + tail, False)
+    if problems:
+        return _fail(text=text, problems=problems)
+    return True
+
+
+def c05_overload_groups(role: int, i: int, j: int, k: int, nsdepth: int) -> bool:
+    """
+    Three overloads of one name (free function / method / static method / constructor) drawn from 7 parameter lists that
+    include pairs with the same MATLAB argument guard (int vs size_t, the short form of a defaulted overload), followed by
+    another function: every call site reaches a routine of the same arity AND of the argument classes it guards for.
+    pre: 0 <= role < 4 and 0 <= i < NSIG and 0 <= j < NSIG and 0 <= k < NSIG and i != j and j != k and i != k and 0 <= nsdepth <= 2
+    pre: THOROUGH or (i + j + k + role) % 2 == 0
+    post: _
+    """
+    role, i, j, k = pick(role, 0, 4), pick(i, 0, NSIG), pick(j, 0, NSIG), pick(k, 0, NSIG)
+    nsdepth = pick(nsdepth, 0, 3) if THOROUGH else (i + j + k + role) % 3
+    with concrete():
+        ok = check_overloads(OROLES[role], i, j, k, nsdepth)
+    reached({"role": OROLES[role], "sigs": [i, j, k]} if (not ok or (role == 0 and (i, j, k) == (2, 0, 3))) else None)
+    return ok
+
+
 def conds(tier):
     q = tier == "quick"
     t = (lambda x, y: x) if q else (lambda x, y: y)
@@ -101,6 +157,8 @@ def conds(tier):
     return [
         xh.Cond(M, "c05_one_class", t(420, 3000), path_timeout=60, kind="shape-bounded", examples=["code=101, boost=1, ser=1, nsdepth=1", "code=383, boost=0, ser=0, nsdepth=2"],
                 bounds="all %d class shapes%s" % (NC, " x both serialization settings x serialize marker (namespace depth derived)" if not q else "; serialization / marker / namespace depth derived from the shape code")),
+        xh.Cond(M, "c05_overload_groups", t(420, 1800), path_timeout=60, kind="shape-bounded", examples=["role=0, i=2, j=0, k=3, nsdepth=0", "role=0, i=0, j=1, k=3, nsdepth=0", "role=1, i=0, j=1, k=4, nsdepth=1", "role=3, i=5, j=2, k=6, nsdepth=2", "role=2, i=6, j=1, k=0, nsdepth=0"],
+                bounds="4 roles x %s ordered triples of 7 parameter lists (same-guard pairs included)%s" % ("all" if not q else "every second of the", " x namespace depth 0-2" if not q else "; namespace depth derived")),
         xh.Cond(M, "c05_two_classes", t(420, 3000), path_timeout=60, kind="shape-bounded", examples=["a=3, b=77, fshape=2, boost=0", "a=7, b=383, fshape=3, boost=1"],
                 bounds=("%d representative first classes x every third of the %d class shapes as second class (free-function shape / serialization derived)" % (NREP, NC)) if not q else ("%d x %d representative class pairs; free-function shape and serialization derived" % (NREP, NREP))),
         xh.Cond(M, "c05_three_classes", t(420, 3000), path_timeout=60, kind="shape-bounded", examples=["a=1, b=5, c=9, fshape=3"],
